@@ -66,7 +66,8 @@ var implicitSites = []implicitSite{
 	{"constant + variable", "", "var w T; print((E) + w)", true, sameAsConversion},
 	{"variable * constant", "", "var w T = 1; print(w * (E))", true, sameAsConversion},
 	{"variable == constant", "", "var x T = (E); print(x == (E))", true, func(constant.Value, string) (any, bool) { return true, true }},
-	{"variable != constant", "", "var x T = (E); print(x != (E), x < (E), x >= (E))", true, nil}, // three values: see below
+	{"variable != constant", "", "var x T = (E); print(x != (E))", true, func(constant.Value, string) (any, bool) { return false, true }},
+	{"variable < constant", "", "var x T = (E); print(x < (E), x >= (E))", true, nil}, // two values: see below
 	{"switch case", "", "var x T = (E); switch x { case (E): print(1); default: print(2) }", true, func(constant.Value, string) (any, bool) { return 1, true }},
 	{"array index", "var arr = [4]int{10, 11, 12, 13}\n", "print(arr[(E)])", false, func(v constant.Value, _ string) (any, bool) { n, _ := intOf(v); return int(10 + n), true }},
 	{"slice index", "var sl = []int{10, 11, 12, 13}\n", "print(sl[(E)])", false, func(v constant.Value, _ string) (any, bool) {
@@ -153,6 +154,12 @@ func implicitSpace() kit.Space {
 		Size: nv * ns,
 		Eval: func(i uint64) kit.Outcome {
 			s, e := at(i)
+			// a constant that is already mishandled where it is converted explicitly
+			// is reported under that key: the sites add nothing
+			if o := checkCached(e); !o.OK {
+				o.Detail = "implicit conversion of " + e + " (" + s.name + "): the constant itself already fails:\n" + o.Detail
+				return o
+			}
 			ts := []string{"int"}
 			if s.typed {
 				ts = numericTypes
@@ -203,8 +210,8 @@ func implicitSpace() kit.Space {
 						continue
 					}
 					wants = []any{w}
-				case strings.HasPrefix(s.name, "variable !="):
-					wants = []any{false, false, true}
+				case strings.HasPrefix(s.name, "variable <"):
+					wants = []any{false, true}
 				default: // int variable / constant
 					n, _ := intOf(val)
 					wants = []any{int(100 / n), int(100 % n)}
